@@ -181,9 +181,20 @@ func run(c *vh.Ctx) error {
 			}
 			// correspondence of the Lean reward/slashing model on the block just executed
 			if drv != nil {
-				if err := correspond(c, drv, s, &s.rr.blocks[len(s.rr.blocks)-1], scenario); err != nil {
+				var cerr error
+				func() {
+					defer func() {
+						if r := recover(); r != nil {
+							// the real code panicked inside an isolated call that the model did not predict: a finding, not a harness death
+							rp := vh.WriteReplay(c.ReplayDir, "C06", fmt.Sprintf("corr-panic-%d", ci), c.Seed, []string{fmt.Sprintf("panic during correspondence: %v", r)}, scenario)
+							res.Fail("correspondence", "", fmt.Sprintf("panic during correspondence on block %d: %v", len(s.rr.blocks), r), rp)
+						}
+					}()
+					cerr = correspond(c, drv, s, &s.rr.blocks[len(s.rr.blocks)-1], scenario)
+				}()
+				if cerr != nil {
 					s.close()
-					return err
+					return cerr
 				}
 			}
 		}
